@@ -3,7 +3,8 @@
 # /tmp/wt-<prop>, run the property's quick check against it in /repo, and record it under /verif/seeded/<prop>-<mK>/.
 export GOFLAGS=-mod=mod GOPROXY=off GOSUMDB=off GOTOOLCHAIN=local
 P=$1; K=$2; shift 2
-SRC=/tmp/mut-$P; WT=/tmp/wt-$P; OUT=/verif/seeded/$P-$K
+TAG=${TAG:-}
+SRC=/tmp/mut-$P$TAG; WT=/tmp/wt-$P$TAG; OUT=/verif/seeded/$P-$K$TAG
 demo=$(grep -o 'func Test[A-Za-z0-9_]*' $SRC/${K}_demo_test.go | head -1 | sed 's/func //')
 set -e
 cd $WT && git checkout -q -- . && git clean -fdq
@@ -31,5 +32,5 @@ for prop in $P "$@"; do
   rm -f /verif/evidence/replays/$prop-*.json
 done
 git -C /repo checkout -- . ; git -C /repo status --short
-echo "RESULT $P-$K:$res"
+echo "RESULT $P-$K$TAG:$res"
 echo "$res" > $OUT/vcheck_result.txt
